@@ -17,6 +17,8 @@ import importlib      # noqa: E402
 import os             # noqa: E402
 import random         # noqa: E402
 import zlib           # noqa: E402
+import re             # noqa: E402
+import collections    # noqa: E402
 
 PROPERTY = "C11"
 LEVEL = "exploration"
@@ -178,6 +180,11 @@ def gen_cases(tier, seed):
         cases.append({"id": "protocol-%s" % b, "sig": ["protocol", b], "kind": "protocol", "binding": b, "trunc": 10 if tier == "quick" else 60})
     cases.append({"id": "metadata", "sig": ["metadata"], "kind": "metadata", "trunc": 10 if tier == "quick" else 60})
     cases.append({"id": "signed-with-doctype", "sig": ["signed-with-doctype"], "kind": "signed"})
+    if not os.environ.get("VERIF_C11_TRACED"):
+        # the same signed and protocol cases once more in a child process under strace: the operating system's view of the whole process
+        # tree, external signature tool included (audit hooks end at the interpreter)
+        cases.append({"id": "os-level-trace", "sig": ["os-level-trace"], "kind": "strace",
+                      "only": ["signed-with-doctype", "protocol-post"] if tier == "quick" else ["signed-with-doctype", "protocol-", "metadata", "generic-and-soap"]})
     return cases
 
 
@@ -415,6 +422,8 @@ def run_case(case, ctx):
         for ep, f in (("mdstore.InMemoryMetaData.parse", load_mem), ("mdstore.MetaDataFile.load", load_file), ("mdstore.MetadataStore.imp[inline]", load_store)):
             for doc, tag in ((mdxml, "entity"), (wrapped, "entities")):
                 _battery(o, "%s[%s]" % (ep, tag), f, doc, scratch, rng, case["trunc"])
+    elif kind == "strace":
+        return run_traced(case, ctx)
     elif kind == "signed":
         # a validly signed response with a DOCTYPE (no entity), a PI and a comment in front: may be accepted, nothing may be fetched,
         # and this is what reaches the parse inside the signature check
@@ -432,6 +441,76 @@ def run_case(case, ctx):
         uniq.setdefault(v["key"] + "|" + v["what"].split(" <- ")[0][-60:], v)
     return {"outcome": "violations" if o.viol else "held", "nontrivial": bool(o.sigs), "violations": list(uniq.values())[:15], "counters": o.counters,
             "sigs": o.sigs, "evals": o.counters.get("calls", 0), "obs": {"reached_sites": sorted(o.reached)}, "reached": sorted(o.reached)}
+
+
+_SYSCALL = re.compile(r'^(\d+)\s+(openat|open|connect|execve)\((.*)$')
+
+
+def run_traced(case, ctx):
+    """Run some of this check's own cases in a child interpreter under `strace -f`; oracle over the system-call log of the whole tree:
+    no open of a canary file by anyone, no connect() to an inet address, no program executed other than the interpreter and the driver."""
+    import shutil
+    import subprocess
+    import sys
+    st = shutil.which("strace")
+    if not st:
+        return {"outcome": "no-strace", "nontrivial": False, "violations": [], "counters": {"strace_unavailable": 1}}
+    viol, counters, sigs = [], collections.Counter(), []
+    for only in case["only"]:
+        trace = os.path.join(ctx.scratch, "trace-%s.txt" % only.strip("-"))
+        child_env = dict(os.environ, VERIF_C11_TRACED="1", VERIF_TMP=os.path.join(ctx.scratch, "traced"))
+        os.makedirs(child_env["VERIF_TMP"], exist_ok=True)
+        cmd = [st, "-f", "-qq", "-s", "300", "-e", "trace=openat,open,connect,execve", "-o", trace, sys.executable, "-W", "ignore", "-c",
+               "import sys; from vlib import runner; sys.exit(runner.main('checks.c11', sys.argv[1:]))",
+               "--tier", "quick", "--inproc", "--only", only, "--no-evidence"]
+        try:
+            p = subprocess.run(cmd, cwd=env.VERIF, env=child_env, stdout=subprocess.PIPE, stderr=subprocess.STDOUT, timeout=1500)
+        except subprocess.TimeoutExpired:
+            counters["traced_runs_timed_out"] += 1
+            continue
+        out = p.stdout.decode("utf-8", "replace")
+        if not os.path.exists(trace) or "ptrace" in out and "not permitted" in out:
+            counters["strace_unavailable"] += 1
+            continue
+        counters["traced_runs"] += 1
+        if p.returncode == 1:
+            # the child found what the in-process monitors find; they report it themselves in the ordinary cases
+            counters["traced_child_reported_violation"] += 1
+        progs = set()
+        with open(trace, errors="replace") as f:
+            for line in f:
+                m = _SYSCALL.match(line)
+                if not m:
+                    continue
+                pid, call, rest = m.groups()
+                counters["syscalls_seen"] += 1
+                if call in ("open", "openat"):
+                    counters["opens_seen"] += 1
+                    if "canary" in rest and "O_WRONLY" not in rest and "O_RDWR" not in rest and "O_CREAT" not in rest:
+                        viol.append({"key": "C11/os-level-canary-opened", "what": "a process of the tree opened a canary file while hostile documents were being parsed: %s" % rest[:200],
+                                     "detail": {"cases": only}})
+                elif call == "connect":
+                    counters["connects_seen"] += 1
+                    if "AF_INET" in rest:
+                        viol.append({"key": "C11/os-level-connect", "what": "a process of the tree connected to %s" % rest[:160], "detail": {"cases": only}})
+                elif call == "execve" and rest.rstrip().endswith("= 0"):
+                    prog = rest.split('"')[1] if '"' in rest else rest[:80]
+                    progs.add(os.path.basename(prog))
+        counters["programs_executed"] += len(progs)
+        for prog in sorted(progs):
+            if not (prog.startswith("python") or prog.startswith("xmlsec1") or prog == "private-xmlsec1"):
+                viol.append({"key": "C11/os-level-other-program", "what": "program %r was executed while documents were being parsed" % prog, "detail": {"cases": only}})
+        if counters["opens_seen"]:
+            sigs.append(["os-level-trace", only])
+        try:
+            os.unlink(trace)
+        except OSError:
+            pass
+    uniq = {}
+    for v in viol:
+        uniq.setdefault(v["key"] + v["what"][:120], v)
+    return {"outcome": "violations" if viol else "held", "nontrivial": bool(sigs), "violations": list(uniq.values())[:10], "counters": dict(counters), "sigs": sigs,
+            "evals": counters["traced_runs"]}
 
 
 def _battery(o, ep, f, doc, scratch, rng, ntrunc, inner_too=None):
